@@ -2,6 +2,7 @@ package rules
 
 import (
 	"go/types"
+	"sort"
 	"strings"
 
 	"golang.org/x/tools/go/ssa"
@@ -37,26 +38,27 @@ type errSpec struct {
 // errTable attaches the error-discipline rule to the clause of each property that says
 // "…returned nil ⇒ it happened" (or "a failure is reported, not swallowed").
 var errTable = map[string][]errSpec{
-	"C01": {{"C01.c", []string{"header.Verify", "header.verify"}, 2, "Verify returning nil means every check passed"}},
+	"C01": {{"C01.c", []string{"header.Verify", "header.verify"}, 1, "Verify returning nil means every check passed"}},
 	"C02": {{"C02.c", []string{"header.VerifyRange"}, 1, "VerifyRange returning nil means every element verified"}},
 	"C03": {{"C03.f", []string{"sync.(*Syncer).incomingNetworkHead", "sync.(*Syncer).verify"}, 2, "a head is accepted only when its verification returned nil"}},
-	"C04": {{"C04.a", []string{"store.(*Store).Get", "store.(*Store).get", "store.(*Store).Has", "store.(*Store).Head", "store.(*Store).Tail", "store.(*Store).Append", "store.(*heightIndexer).HashByHeight"}, 12, "a lookup returning nil returned a stored header"}},
-	"C05": {{"C05.a", []string{"p2p.(*Exchange).GetRangeByHeight", "p2p.(*session).getRangeByHeight", "p2p.(*session).processResponses", "p2p.(*session).verify", "p2p.processResponses"}, 4, "a range returned without error was verified"}},
+	"C04": {{"C04.a", []string{"store.(*Store).Get", "store.(*Store).get", "store.(*Store).Has", "store.(*Store).Head", "store.(*Store).Tail", "store.(*Store).Append", "store.(*heightIndexer).HashByHeight"}, 7, "a lookup returning nil returned a stored header"}},
+	"C05": {{"C05.a", []string{"p2p.(*Exchange).GetRangeByHeight", "p2p.(*session).getRangeByHeight", "p2p.(*session).processResponses", "p2p.(*session).verify", "p2p.processResponses"}, 3, "a range returned without error was verified"}},
 	"C06": {{"C06.a", []string{"store.(*Store).flush", "store.writeHeaderHashTo", "store.indexTo", "store.(*Store).readByKey", "store.(*Store).init", "store.(*Store).Start", "store.(*Store).Stop", "store.(*Store).Sync"}, 8, "a flush/start returning nil wrote/loaded everything"}},
-	"C07": {{"C07.c", []string{"sync.(*syncStore).Append", "sync.(*Syncer).processHeaders", "sync.(*Syncer).requestHeaders", "sync.(*Syncer).doSync"}, 6, "a sync round reporting success stored what it fetched"}},
-	"C08": {{"C08.c", []string{"store.(*Store).DeleteRange", "store.(*Store).deleteRangeRaw", "store.(*Store).deleteSequential", "store.(*Store).deleteParallel", "store.(*Store).deleteSingle", "store.(*Store).setTail", "store.(*Store).setHead", "store.(*Store).wipe"}, 14, "DeleteRange returning nil means every deletion and pointer step succeeded"}},
-	"C10": {{"C10.d", []string{"p2p.(*ExchangeServer).handle"}, 3, "the server answers OK only when the store read succeeded"}},
-	"C11": {{"C11.b", []string{"p2p.(*Subscriber).extractHeader"}, 2, "a header handed to the verifier was decoded and validated"}},
-	"C12": {{"C12.a", []string{"store.(*Store).GetByHeight", "store.(*heightSub).Wait"}, 3, "a by-height read returning nil found the header"}},
-	"C13": {{"C13.d", []string{"p2p.(*Exchange).Get", "p2p.(*Exchange).GetByHeight", "p2p.(*Exchange).request", "p2p.(*Exchange).performRequest"}, 4, "a request returning nil carries validated headers"}},
-	"C14": {{"C14.b", []string{"store.(*Store).deleteSingle", "store.(*Store).OnDelete"}, 4, "the per-height step returning nil ran every handler and every removal"}},
-	"C15": {{"C15.d", []string{"sync.(*Syncer).verifyBifurcating"}, 2, "the bifurcation returning nil verified its whole chain"}},
-	"C16": {{"C16.c", []string{"sync.(*Syncer).subjectiveTail", "sync.(*Syncer).renewTail", "sync.(*Syncer).moveTail", "sync.(*Syncer).tailHeight", "sync.(*Syncer).findTailHeight", "sync.(*Syncer).tailHash"}, 10, "a tail renewal returning nil resolved, stored and moved to the new tail"}},
+	"C07": {{"C07.c", []string{"sync.(*syncStore).Append", "sync.(*Syncer).processHeaders", "sync.(*Syncer).requestHeaders", "sync.(*Syncer).doSync"}, 4, "a sync round reporting success stored what it fetched"}},
+	"C08": {{"C08.c", []string{"store.(*Store).DeleteRange", "store.(*Store).deleteRangeRaw", "store.(*Store).deleteSequential", "store.(*Store).deleteParallel", "store.(*Store).deleteSingle", "store.(*Store).setTail", "store.(*Store).setHead", "store.(*Store).wipe"}, 10, "DeleteRange returning nil means every deletion and pointer step succeeded"}},
+	"C10": {{"C10.d", []string{"p2p.(*ExchangeServer).handle"}, 2, "the server answers OK only when the store read succeeded"}},
+	"C11": {{"C11.b", []string{"p2p.(*Subscriber).extractHeader"}, 1, "a header handed to the verifier was decoded and validated"}},
+	"C12": {{"C12.a", []string{"store.(*Store).GetByHeight", "store.(*heightSub).Wait"}, 2, "a by-height read returning nil found the header"}},
+	"C13": {{"C13.d", []string{"p2p.(*Exchange).Get", "p2p.(*Exchange).GetByHeight", "p2p.(*Exchange).request", "p2p.(*Exchange).performRequest"}, 3, "a request returning nil carries validated headers"}},
+	"C14": {{"C14.b", []string{"store.(*Store).deleteSingle", "store.(*Store).OnDelete"}, 2, "the per-height step returning nil ran every handler and every removal"}},
+	"C15": {{"C15.d", []string{"sync.(*Syncer).verifyBifurcating"}, 1, "the bifurcation returning nil verified its whole chain"}},
+	"C16": {{"C16.c", []string{"sync.(*Syncer).subjectiveTail", "sync.(*Syncer).renewTail", "sync.(*Syncer).moveTail", "sync.(*Syncer).tailHeight", "sync.(*Syncer).findTailHeight", "sync.(*Syncer).tailHash"}, 8, "a tail renewal returning nil resolved, stored and moved to the new tail"}},
 	"C18": {{"C18.e", []string{"p2p.sendMessage", "p2p.(*session).getRangeByHeight"}, 2, "a response list returned without error was read completely"}},
-	"C19": {{"C19.b", []string{"sync.(*Syncer).Head", "sync.(*Syncer).subjectiveHead", "sync.(*Syncer).networkHead", "sync.(*Syncer).localHead"}, 6, "Head() failing is reported; tolerated request failures are named"}},
+	"C19": {{"C19.b", []string{"sync.(*Syncer).Head", "sync.(*Syncer).subjectiveHead", "sync.(*Syncer).networkHead", "sync.(*Syncer).localHead"}, 4, "Head() failing is reported; tolerated request failures are named"}},
 }
 
 var errExceptions = []errFlowException{
+	{"p2p.sendMessage", "invoke:SetDeadline", "a failed SetDeadline is only logged: the request proceeds without a stream deadline, the request context still bounds it"},
 	{"sync.(*Syncer).networkHead", "syncHead[H]).Head#1", "by design (C19.b failed-request-keeps-head): when the request for a more recent head fails, the current subjective head is returned with a nil error"},
 	{"sync.(*Syncer).networkHead", "incomingNetworkHead", "by design (C19.b): a refused soft-failing head leaves the subjective head unchanged, returned with a nil error"},
 	{"sync.(*Syncer).subjectiveHead", "localHead#1", "the `expired` case is tested first; localHead returns the zero header with every error and a zero header is never expired (C19.d zero-not-expired), so a failed read cannot take that branch"},
@@ -148,35 +150,46 @@ func checkErrorDiscipline(c *an.Ctx, id string, exceptions []errFlowException, f
 			// walk the pruned CFG from the call; a block in which the error is known to be
 			// classified (errors.Is/As on that value holds) ends the walk: from there on the
 			// outcome is a deliberate, named one
-			classified := func(b *ssa.BasicBlock) bool {
-				for _, f := range pr.AtRefined(b) {
-					if f.Op == "B" && f.Pos && (strings.HasPrefix(f.A, "errors.Is("+errTerm+",") || strings.HasPrefix(f.A, "As("+errTerm+",")) {
-						return true
+			// (the test may be applied to the error itself or to a variable that carries it on this path)
+			isClass := func(fs an.FactSet, carried map[ssa.Value]bool) bool {
+				terms := []string{errTerm}
+				for v := range carried {
+					terms = append(terms, t.Of(v))
+				}
+				for _, f := range fs {
+					if f.Op != "B" || !f.Pos {
+						continue
+					}
+					for _, tm := range terms {
+						if strings.HasPrefix(f.A, "errors.Is("+tm+",") || strings.HasPrefix(f.A, "As("+tm+",") {
+							return true
+						}
 					}
 				}
 				return false
 			}
-			classifiedEdge := func(from, to *ssa.BasicBlock) bool {
-				for _, f := range pr.EdgeFacts(from, to) {
-					if f.Op == "B" && f.Pos && (strings.HasPrefix(f.A, "errors.Is("+errTerm+",") || strings.HasPrefix(f.A, "As("+errTerm+",")) {
-						return true
-					}
-				}
-				return false
+			classified := func(b *ssa.BasicBlock, carried map[ssa.Value]bool) bool {
+				return isClass(pr.AtRefined(b), carried)
+			}
+			classifiedEdge := func(from, to *ssa.BasicBlock, carried map[ssa.Value]bool) bool {
+				return isClass(pr.EdgeFacts(from, to), carried)
 			}
 			// the walk is path-sensitive in one respect: a phi that merges the failed error itself
 			// is known to be non-nil on the path that carries it (the `err = f(); … if err != nil` idiom
 			// with an intermediate re-assignment on another branch)
 			var bad *ssa.Return
 			seen := map[string]bool{}
-			var walk func(b, from *ssa.BasicBlock, carried map[ssa.Value]bool)
-			walk = func(b, from *ssa.BasicBlock, carried map[ssa.Value]bool) {
+			// nils: error-typed phis known to be nil on the current path (their operand on the
+			// edge taken is the nil constant): `rerr` accumulators that were not assigned
+			var walk func(b, from *ssa.BasicBlock, carried, nils map[ssa.Value]bool)
+			walk = func(b, from *ssa.BasicBlock, carried, nils map[ssa.Value]bool) {
 				if from != nil {
-					if !pr.Reachable(b) || classified(b) {
+					if !pr.Reachable(b) || classified(b, carried) {
 						return
 					}
 					// phis of b: which of them carry the failed error on this edge
 					next := map[ssa.Value]bool{}
+					nextNil := map[ssa.Value]bool{}
 					idx := -1
 					for i, p := range b.Preds {
 						if p == from {
@@ -191,17 +204,35 @@ func checkErrorDiscipline(c *an.Ctx, id string, exceptions []errFlowException, f
 						if idx >= 0 && (ph.Edges[idx] == errVal || carried[ph.Edges[idx]]) {
 							next[ph] = true
 						}
+						if idx >= 0 && an.IsErrorType(ph.Type()) && (isNilConst(ph.Edges[idx]) || nils[ph.Edges[idx]]) {
+							nextNil[ph] = true
+						}
 					}
 					for v := range carried {
-						next[v] = true
+						if _, redefined := next[v]; !redefined && !nextNil[v] {
+							next[v] = true
+						}
 					}
-					carried = next
+					for v := range nils {
+						if ph, isPhi := v.(*ssa.Phi); isPhi && ph.Block() == b {
+							continue // re-evaluated above
+						}
+						nextNil[v] = true
+					}
+					carried, nils = next, nextNil
 					k := itoa(b.Index) + ":"
 					for _, ins := range b.Instrs {
 						if ph, isPhi := ins.(*ssa.Phi); isPhi && carried[ph] {
 							k += ph.Name() + ","
 						}
 					}
+					k += "|"
+					var nk []string
+					for v := range nils {
+						nk = append(nk, v.Name())
+					}
+					sort.Strings(nk)
+					k += strings.Join(nk, ",")
 					if seen[k] {
 						return
 					}
@@ -211,30 +242,32 @@ func checkErrorDiscipline(c *an.Ctx, id string, exceptions []errFlowException, f
 				if r, isRet := last.(*ssa.Return); isRet {
 					ev := r.Results[len(r.Results)-1]
 					known := carried[ev] || ev == errVal
-					if !known && (t.ErrShape(ev) == "nil" || pr.AtRefined(b).Has(an.EQ(t.Of(ev), "nil"))) {
+					if !known && (nils[ev] || t.ErrShape(ev) == "nil" || pr.AtRefined(b).Has(an.EQ(t.Of(ev), "nil"))) {
 						bad = r
 					}
 				}
 				succs := b.Succs
 				if iff, isIf := last.(*ssa.If); isIf {
 					// `if carried != nil` / `== nil`: only one way out
-					if bo, isBO := iff.Cond.(*ssa.BinOp); isBO && (carried[bo.X] || bo.X == errVal) && isNilConst(bo.Y) {
-						switch bo.Op.String() {
-						case "!=":
+					if bo, isBO := iff.Cond.(*ssa.BinOp); isBO && isNilConst(bo.Y) {
+						nonNil := carried[bo.X] || bo.X == errVal
+						isNil := nils[bo.X]
+						switch {
+						case nonNil && bo.Op.String() == "!=", isNil && bo.Op.String() == "==":
 							succs = b.Succs[:1]
-						case "==":
+						case nonNil && bo.Op.String() == "==", isNil && bo.Op.String() == "!=":
 							succs = b.Succs[1:]
 						}
 					}
 				}
 				for _, s := range succs {
-					if !pr.Removed(b, s) && !classifiedEdge(b, s) {
-						walk(s, b, carried)
+					if !pr.Removed(b, s) && !classifiedEdge(b, s, carried) {
+						walk(s, b, carried, nils)
 					}
 				}
 			}
-			if !classified(call.Block()) {
-				walk(call.Block(), nil, map[ssa.Value]bool{})
+			if !classified(call.Block(), nil) {
+				walk(call.Block(), nil, map[ssa.Value]bool{}, map[ssa.Value]bool{})
 			}
 			if bad != nil {
 				c.Fail(id, key, "a failed step is never reported as success: no nil-error return is reachable after the call once its error is non-nil (unless the error was classified by errors.Is/As)", fn, bad, "nil return reachable after failed "+an.Stable(errTerm), pr.AtRefined(bad.Block()))
